@@ -236,6 +236,7 @@ const prelude = `(declare-sort Str 0)
 (declare-fun rkind (Int) Int)
 (declare-fun folded (Str) Bool)
 (declare-fun nlfree (Str) Bool)
+(declare-fun errtext (Iface) Str)
 (declare-fun shared (Int) Bool)
 (declare-fun bv_and (Int Int) Int)
 (declare-fun bv_or (Int Int) Int)
